@@ -255,6 +255,55 @@ class _LocalRenamer(ast.NodeTransformer):
         return node
 
 
+class _Commuter(ast.NodeTransformer):
+    """Behaviour-preserving operand swaps: a & b -> b & a, a | b -> b | a, a == b -> b == a, a != b -> b != a,
+    a < b -> b > a (and <=, >, >=), c * x -> x * c for a numeric constant c. (`+` is left alone: it also concatenates.)"""
+
+    FLIP = {ast.Lt: ast.Gt, ast.Gt: ast.Lt, ast.LtE: ast.GtE, ast.GtE: ast.LtE, ast.Eq: ast.Eq, ast.NotEq: ast.NotEq}
+
+    def visit_BinOp(self, node):
+        self.generic_visit(node)
+        if isinstance(node.op, (ast.BitAnd, ast.BitOr)):
+            node.left, node.right = node.right, node.left
+        elif isinstance(node.op, ast.Mult):
+            lc = isinstance(node.left, ast.Constant) and isinstance(node.left.value, (int, float)) and not isinstance(node.left.value, bool)
+            rc = isinstance(node.right, ast.Constant) and isinstance(node.right.value, (int, float)) and not isinstance(node.right.value, bool)
+            if lc != rc:
+                node.left, node.right = node.right, node.left
+        return node
+
+    def visit_Compare(self, node):
+        self.generic_visit(node)
+        if len(node.ops) == 1 and type(node.ops[0]) in self.FLIP:
+            node.left, node.comparators[0] = node.comparators[0], node.left
+            node.ops[0] = self.FLIP[type(node.ops[0])]()
+        return node
+
+
+def commute_twin(prop: str, repo: str):
+    """Whole-package twin: commutative / symmetric operands swapped everywhere; the check must stay silent."""
+    scratch = make_scratch(repo)
+    try:
+        pk = os.path.join(scratch, "src/pydrobert/torch")
+        for fn in os.listdir(pk):
+            if fn.endswith(".py"):
+                p = os.path.join(pk, fn)
+                with open(p, encoding="utf-8") as f:
+                    tree = ast.parse(f.read())
+                tree = _Commuter().visit(tree)
+                ast.fix_missing_locations(tree)
+                with open(p, "w") as f:
+                    f.write(ast.unparse(tree))
+        try:
+            v, k = run_prop_on(prop, scratch)
+            return ("twin:commute-operands", "ok" if not v else "twin-fired",
+                    "; ".join(f"{o.rule}/{o.clause} {o.construct}" for o in v[:4]))
+        except Exception as e:
+            return ("twin:commute-operands", "analysis-error", f"{type(e).__name__}: {e}")
+    finally:
+        shutil.rmtree(scratch, ignore_errors=True)
+
+
 def rename_locals_twin(prop: str, repo: str):
     """Whole-package twin: every local variable renamed; the property's check must stay silent."""
     scratch = make_scratch(repo)
